@@ -1,0 +1,28 @@
+//go:build verif
+
+// Verification hooks (add-only, compiled only with -tags verif). They expose
+// unexported entry points of the VSIX signer to the out-of-tree correspondence
+// harness in /verif; no existing behaviour is changed.
+package vsix
+
+import (
+	"crypto"
+
+	"github.com/sassoftware/relic/v8/lib/certloader"
+	"github.com/sassoftware/relic/v8/lib/signappx"
+	"github.com/sassoftware/relic/v8/signers"
+)
+
+// VerifMakeSignature runs makeSignature over a caller-supplied digest table,
+// without needing a zip archive around it.
+func VerifMakeSignature(digests map[string][]byte, cert *certloader.Certificate, opts signers.SignOpts, detachCerts bool) ([]byte, error) {
+	m := &mangler{digests: digests, ctypes: signappx.NewContentTypes(), hash: opts.Hash}
+	return m.makeSignature(cert, opts, detachCerts)
+}
+
+// VerifSignatureConsts returns the constants makeSignature writes into the package object.
+func VerifSignatureConsts() (nsDigSigURI, timeFormatXML, timeFormatGo string) {
+	return nsDigSig, tsFormatXML, tsFormatGo
+}
+
+var _ = crypto.SHA256
